@@ -17,7 +17,7 @@ FN_DOMAIN = "c07.local"
 CUSTOM_DOMAIN = "custom.c07"
 
 # pattern kinds a host can be seeded with (what `plant` emits)
-PLANTS = ("neg", "sub", "add", "mul", "tt", "mul1", "add0", "split", "relu", "subrelu", "negneg", "diamond", "reluadd", "mul1c", "addmul")
+PLANTS = ("neg", "sub", "add", "mul", "tt", "mul1", "add0", "split", "relu", "subrelu", "negneg", "diamond", "reluadd", "mul1c", "addmul_rl", "addmul_rf")
 
 
 class Val:
@@ -196,14 +196,15 @@ class Scope:
             swap = rng.random() < 0.55
             r = self.emit("Mul", [c, a] if swap else [a, c], [a.ex * c.ex], planted=True)
             ctx.swapped += int(swap)
-        elif kind == "addmul":
+        elif kind in ("addmul_rl", "addmul_rf"):
             # an instance of a pattern with TWO output nodes, Add(x, y) and Mul(x, z): the two matched nodes in either order,
             # and (half of the time) an operand of the LATER one produced between them - where the replacement is inserted
             # decides whether the result is still topologically sorted
             a = self.pick()
             b = self.pick(lambda v: v.shape == a.shape) or a
             c = self.pick(lambda v: v.shape == a.shape) or a
-            order = rng.choice(["mul_first", "add_first"])
+            # _rl: the pattern's root (Add, its first output node) comes LAST in the graph; _rf: it comes FIRST
+            order = "mul_first" if kind == "addmul_rl" else "add_first"
             inter = rng.random() < 0.6
             if order == "mul_first":
                 m = self.emit("Mul", [a, c], [a.ex * c.ex], planted=True)
@@ -410,7 +411,7 @@ def _function(ctx, main, n_plants):
 
 ROOT_OPS = {"neg": ("Neg",), "sub": ("Sub",), "add": ("Add",), "mul": ("Mul",), "tt": ("Transpose",), "mul1": ("Mul",), "add0": ("Add",),
             "split": ("Split",), "relu": ("Relu",), "subrelu": ("Relu", "Sub"), "negneg": ("Neg",), "diamond": ("Add", "Sub"),
-            "reluadd": ("Add", "Relu"), "mul1c": ("Mul",), "addmul": ("Add", "Mul")}
+            "reluadd": ("Add", "Relu"), "mul1c": ("Mul",), "addmul_rl": ("Add", "Mul"), "addmul_rf": ("Add", "Mul")}
 
 
 def make_host(rng, plant, *, n_nodes=6, k_plants=2, subgraphs=True, functions=True, clash_name=None, custom_fn=False, nested_only=False,
